@@ -21,15 +21,18 @@ ASSUMPTIONS = ["an RFC-conformant server sends at most one close frame per conne
                "close(timeout=None) is documented as waiting forever and is not in the alphabet; 'within its timeout' is read as: "
                "every wait inside close() is bounded by the timeout and the total is <= 2 x timeout",
                "the socket timeout is 5 virtual seconds so that silence surfaces as a timeout; virtual clock advanced by the transport"]
-TASK_LIMIT_S = {"quick": 240, "thorough": 3000}
+TASK_LIMIT_S = {"quick": 60, "thorough": 900}  # a task takes seconds; a library call that blocks for ever (leaked lock) is reported as a hang
 
 CLIENT = ["send", "recv", "ping", "close", "close1001", "close-1", "close65536", "send_close", "send_close1002", "send_close70000", "shutdown"]
-SERVER = ["s-text", "s-ping", "s-close0", "s-close1000", "s-close1001", "s-eof", "s-reset"]
+SERVER = ["s-text", "s-ping", "s-close0", "s-close1000", "s-close1001", "s-eof", "s-reset",
+          # the stream ends in the middle of a frame: inside the 2-byte header, inside a 16- / 64-bit length field, inside the payload
+          "s-cut-header", "s-cut-len16", "s-cut-len64", "s-cut-payload"]
+CUTS = {"s-cut-header": b"\x81", "s-cut-len16": b"\x81\x7e\x00", "s-cut-len64": b"\x82\x7f\x00\x00\x00", "s-cut-payload": b"\x81\x05ab"}
 EVENTS = CLIENT + SERVER
 
 
 def bounds(tier):
-    return "all histories of depth <= %d over 18 events; quiet and chatty server; socket timeout 5, 20 and None" % (4 if tier == "quick" else 6)
+    return "all histories of depth <= %d over 22 events; quiet and chatty server; socket timeout 5, 20 and None" % (4 if tier == "quick" else 6)
 
 
 class FakeTime:
@@ -217,7 +220,8 @@ class Harness:
                 sock.stream += R.encode(R.CLOSE, b"\x03\xe8")
             elif ev == "s-close1001":
                 sock.stream += R.encode(R.CLOSE, b"\x03\xe9away")
-            elif ev == "s-eof":
+            elif ev == "s-eof" or ev in CUTS:
+                sock.stream += CUTS.get(ev, b"")
                 sock.eof = True
                 ref["peer_eof"] = True
             elif ev == "s-reset":
